@@ -51,8 +51,9 @@ func loadRuntime() *types.Package {
 }
 
 type parser struct {
-	s   string
-	pos int
+	s     string
+	pos   int
+	blank bool // the term just parsed was wrapped in B(…): a blank `_` struct field
 	pkg *types.Package
 	nm  map[string]*types.Named
 }
@@ -104,6 +105,12 @@ func (p *parser) term() types.Type {
 	case "I":
 		m := types.NewFunc(token.NoPos, p.pkg, "M", types.NewSignatureType(nil, nil, nil, nil, nil, false))
 		return types.NewInterfaceType([]*types.Func{m}, nil).Complete()
+	case "B": // B(t): only as a struct field; the field is named `_`
+		p.expect('(')
+		e := p.term()
+		p.expect(')')
+		p.blank = true
+		return e
 	case "P", "S", "C", "N":
 		p.expect('(')
 		e := p.term()
@@ -152,8 +159,14 @@ func (p *parser) term() types.Type {
 			if len(fields) > 0 {
 				p.expect(',')
 			}
+			p.blank = false
 			ft := p.term()
-			fields = append(fields, types.NewField(token.NoPos, p.pkg, "F"+strconv.Itoa(len(fields)), ft, false))
+			name := "F" + strconv.Itoa(len(fields))
+			if p.blank {
+				name = "_"
+			}
+			p.blank = false
+			fields = append(fields, types.NewField(token.NoPos, p.pkg, name, ft, false))
 		}
 		p.expect(')')
 		return types.NewStruct(fields, nil)
